@@ -175,9 +175,13 @@ func TestDrive(t *testing.T) {
 			t.Fatalf("warm-up proposal failed: %+v", r)
 		}
 		warm := 0
+		warmPanic := ""
 		for {
 			if p, msg := c.NextBlock(0); p {
-				t.Fatalf("panic during warm-up: %s", msg)
+				// a BeginBlock panic while the genesis parameters age out is evidence about lava,
+				// not about the driver: log it (ObsNoPanic) and end this behaviour
+				warmPanic = "warm-up: " + msg
+				break
 			}
 			warm++
 			ctx := c.TS.Ctx
@@ -191,7 +195,13 @@ func TestDrive(t *testing.T) {
 		}
 		r0 := rec{Ev: "reset", Beh: bi, Ok: true}
 		snapshot(c, &r0)
+		if warmPanic != "" {
+			r0.Panic, r0.PanicS, r0.Ok = true, warmPanic+r0.PanicS, false
+		}
 		out.Emit(r0)
+		if r0.Panic {
+			continue
+		}
 		for si, s := range beh[1:] {
 			r := rec{Ev: s.A, V: s.V, Beh: bi, Step: si + 1}
 			switch s.A {
